@@ -74,17 +74,19 @@ type nondetRec struct {
 }
 
 type Stats struct {
-	Steps       int64
-	Allocs      int
-	Branches    int
-	Paths       int
-	Funcs       map[string]bool
-	ModelsHit   map[string]int
-	Unknowns    int
-	Concretize  int
-	Checks      int
-	WitnessHits int
-	MemoHits    int
+	Steps         int64
+	Allocs        int
+	Branches      int
+	Paths         int
+	Funcs         map[string]bool
+	ModelsHit     map[string]int
+	Unknowns      int
+	Concretize    int
+	Checks        int
+	WitnessHits   int
+	ChecksRewrite int
+	ChecksSolver  int
+	MemoHits      int
 }
 
 type Machine struct {
@@ -600,8 +602,10 @@ func (m *Machine) violate(kind, label string, extra *Term) {
 func (m *Machine) check(cond *Term, label string) {
 	cond = m.simp(cond)
 	if cond.IsConst() && cond.Val != 0 {
+		m.stats.ChecksRewrite++ // valid for all values by term normalisation alone
 		return
 	}
+	m.stats.ChecksSolver++
 	if m.fixed != nil && cond.IsConst() {
 		// concrete mode: record the failed check and keep going, like the native harness does
 		m.violations = append(m.violations, Violation{Kind: "check", Label: label, Site: m.site(), Phase: m.phase})
